@@ -1,7 +1,6 @@
-CONSTANTS MaxView1 = 0 ByzBudget = 1 Blocks <- cBlocks Hdr <- cHdrSame Syncs = TRUE Dev = {} Ablate = {}
+CONSTANTS Patient = TRUE MaxView1 = 2 ByzBudget = 3 Blocks <- cBlocks Hdr <- cHdrSame Syncs = TRUE Dev = {} Ablate = {}
 INIT Init
 NEXT Next
 INVARIANTS Agreement ExternalValidity NoEquivocation OnlyMembersAct
 PROPERTIES DecidedOnce HeightsForward
-VIEW View
 CHECK_DEADLOCK FALSE
